@@ -86,6 +86,28 @@ Print Assumptions {pid}_mixed.
 """
     return t
 
+def disk_safety(pid, cls):
+    e = "err_" + cls
+    return f"""(* DiskRevolve and PeriodicDiskRevolve: every N, every RAM count >= 1, every cost vector; budgets RAM = snapshots_in_ram, DISK unbounded.
+   The monitor's only possible verdict other than "no error" is E_leftover at the final EndReverse (class C04: the open finding
+   D8, see C04_disk_revolve_refuted), so no error of THIS property's class is ever reported, and nothing raises *)
+Theorem {pid}_disk_revolve : forall (N ram disk uf ub wd rd : Z) (k : nat), 1 <= N -> 1 <= ram ->
+  exists o0 m ls, run_case (PRev RevConv.KDiskRevolve N ram disk uf ub wd rd) (DiskRun.disk_xparams N ram) (repeat Next k) = Ok (o0, m, ls) /\\ no_err {e} m /\\ no_raise ls.
+Proof.
+  intros N ram disk uf ub wd rd k H1 H2. destruct (DiskRun.disk_revolve_run N ram disk uf ub wd rd k H1 H2) as (o0 & m & ls & E & Hl & Hm).
+  exists o0, m, ls. split; [exact E|]. split; [apply (DiskRun.leftover_no_err _ m Hm); intros []|exact Hl].
+Qed.
+Print Assumptions {pid}_disk_revolve.
+Theorem {pid}_periodic_disk_revolve : forall (N ram disk uf ub wd rd : Z) (k : nat), 1 <= N -> 1 <= ram ->
+  exists o0 m ls, run_case (PRev RevConv.KPeriodic N ram disk uf ub wd rd) (DiskRun.disk_xparams N ram) (repeat Next k) = Ok (o0, m, ls) /\\ no_err {e} m /\\ no_raise ls.
+Proof.
+  intros N ram disk uf ub wd rd k H1 H2. destruct (DiskRun.periodic_run N ram disk uf ub wd rd k H1 H2) as (o0 & m & ls & E & Hl & Hm).
+  exists o0, m, ls. split; [exact E|]. split; [apply (DiskRun.leftover_no_err _ m Hm); intros []|exact Hl].
+Qed.
+Print Assumptions {pid}_periodic_disk_revolve.
+
+"""
+
 def typ(mod, name):
     src = "From Coq Require Import ZArith List Bool.\nFrom CS Require Import %s.\nImport ListNotations.\nOpen Scope Z_scope.\nSet Printing Width 110.\nCheck @%s.%s.\n" % (mod, mod, name)
     p = subprocess.run(['coqtop','-R','.','CS','-quiet'], input=src, capture_output=True, text=True)
@@ -109,7 +131,18 @@ for l in open('/verif/properties.jsonl'):
 files = {}
 for pid, cls in [('C01','C01'),('C02','C02'),('C03','C03'),('C04','C04'),('C08','C08'),('C12','C12')]:
     body = HEAD % (pid, TITLES[pid]) + safety(pid, cls, '')
-    body = body.replace("From CS Require Import Actions", "From CS Require RevConv RevBridge4 RevolveRun Refuted.\nFrom CS Require Import Actions")
+    body = body.replace("From CS Require Import Actions", "From CS Require RevConv RevBridge4 RevolveRun Refuted DiskRun DiskBridge3.\nFrom CS Require Import Actions")
+    if pid != 'C04':
+        body += disk_safety(pid, cls)
+    else:
+        body += '''(* DiskRevolve / PeriodicDiskRevolve: everything but this property's own error class is excluded -- the verdict is "no error" or
+   E_leftover at the final EndReverse, and nothing raises (for E_leftover itself see the *_refuted theorems below) *)
+Theorem C04_disk_revolve_only_leftover_partial : forall (N ram disk uf ub wd rd : Z) (k : nat), 1 <= N -> 1 <= ram ->
+  exists o0 m ls, run_case (PRev RevConv.KDiskRevolve N ram disk uf ub wd rd) (DiskRun.disk_xparams N ram) (repeat Next k) = Ok (o0, m, ls) /\\ no_raise ls /\\ DiskBridge3.leftover_or_ok m.
+Proof. exact DiskRun.disk_revolve_run. Qed.
+Print Assumptions C04_disk_revolve_only_leftover_partial.
+
+'''
     if pid == 'C02':
         body += lifted('C02_multistage_terminates','AllocTotal','multistage_terminates','completeness (Multistage): EndReverse is emitted within 6 * TC N S + 1 requests, with no error and no exception on the way, and by then the reference executor has carried out exactly TC N S forward steps')
     if pid == 'C04':
@@ -211,10 +244,11 @@ mk('C10', ['BasicProofs'], [lifted('C10_online','BasicProofs','C10_online','onli
    lifted('C10_known','BasicProofs','C10_known','max_n known: finalize(k) is a no-op iff k = max_n = n; state unchanged in every case'),
    lifted('C10_reject','BasicProofs','C10_reject','every other call: ValueError if k < 1 else RuntimeError, state unchanged'),
    lifted('C10_next_endforward','BasicProofs','C10_next_endforward','after a successful finalisation in the forward loop the next action is EndForward')])
-mk('C11', ['SchedProofs','UsesProofs','ExecBudget','RevConv','RevBridge4'], [lifted('C11_uses_never_raises','SchedProofs','uses_never_raises','uses_storage_type never raises, for every StorageType member, in every state'),
+mk('C11', ['SchedProofs','UsesProofs','ExecBudget','RevConv','RevBridge4','DiskUses'], [lifted('C11_uses_never_raises','SchedProofs','uses_never_raises','uses_storage_type never raises, for every StorageType member, in every state'),
    lifted('C11_touch_implies_uses','UsesProofs','touch_implies_uses','if an emitted action writes a checkpoint to RAM / DISK or copies / moves one from or to it, uses_storage_type of that storage is True: every state of the extracted objects of None, SingleMemory, SingleDisk, TwoLevel, Multistage, Mixed (well_built = counts stored in the object are those of its labels / storage is a checkpoint storage); the Revolve family is excluded from well_built (see the next two theorems)'),
    lifted('C11_revolve_touch_uses','ExecBudget','revolve_touch_uses','class Revolve, on its (error-free) runs: every yielded action that writes to / copies or moves from or to RAM or DISK finds uses_storage_type of that storage True in the observation taken right after it -- RAM needs snapshots_in_ram > 0 (the budget of the run), DISK is never touched'),
-   lifted('C11_touch_needs_budget_partial','ExecBudget','run_touch','PARTIAL (DiskRevolve, PeriodicDiskRevolve, HRevolve): class-independent fact about the reference executor -- on any error-free monitored run the store sizes stay within the declared budgets and an action touching RAM / DISK is accepted only if that budget is positive; for the three classes named, error-freeness is not proved (D8), so touched => uses rests on correspondence + oracle')])
+   lifted('C11_disk_touch_uses','DiskUses','disk_touch_uses','DiskRevolve and PeriodicDiskRevolve with at least one RAM snapshot (snapshots_in_ram = 0 is accepted for max_n = 1 only), every history (requests, finalize calls, Run loops in any order): RAM and DISK are reported as used at every observation, so whatever an action touches is reported as used'),
+   lifted('C11_touch_needs_budget_partial','ExecBudget','run_touch','PARTIAL (HRevolve; DiskRevolve / PeriodicDiskRevolve with snapshots_in_ram = 0): class-independent fact about the reference executor -- on any error-free monitored run the store sizes stay within the declared budgets and an action touching RAM / DISK is accepted only if that budget is positive; for HRevolve error-freeness is not proved (D8), so touched => uses rests on correspondence + oracle')])
 mk('C13', ['TLInv','TLSweep','Online'], [
    lifted('C13_sweep_pattern','TLSweep','twolevel_sweep','FIRST CLAUSE, extracted model, every period >= 1, every binomial_snapshots, both storages, both trajectories, every number j of requests before finalisation: the observations are exactly Forward(i P, (i+1) P, write_ics, DISK) with n = (i+1) P, r = 0, max_n unknown, not exhausted, for i = 0 .. j-1'),
    """(* the whole TwoLevel run on the extracted model *)
@@ -254,13 +288,21 @@ Theorem C17_revolve_complete : forall (N ram disk uf ub wd rd : Z) (k : nat), 1 
   exists o0 m ls, run_case (PRev RevConv.KRevolve N ram disk uf ub wd rd) (RevBridge4.rev_xparams N ram) (repeat Next k) = Ok (o0, m, ls) /\\ mon_ok m /\\ no_raise ls.
 Proof. exact RevolveRun.revolve_run. Qed.
 Print Assumptions C17_revolve_complete.
+Theorem C17_disk_revolve_complete : forall (N ram disk uf ub wd rd : Z) (k : nat), 1 <= N -> 1 <= ram ->
+  exists o0 m ls, run_case (PRev RevConv.KDiskRevolve N ram disk uf ub wd rd) (DiskRun.disk_xparams N ram) (repeat Next k) = Ok (o0, m, ls) /\\ no_raise ls /\\ DiskBridge3.leftover_or_ok m.
+Proof. exact DiskRun.disk_revolve_run. Qed.
+Print Assumptions C17_disk_revolve_complete.
+Theorem C17_periodic_complete : forall (N ram disk uf ub wd rd : Z) (k : nat), 1 <= N -> 1 <= ram ->
+  exists o0 m ls, run_case (PRev RevConv.KPeriodic N ram disk uf ub wd rd) (DiskRun.disk_xparams N ram) (repeat Next k) = Ok (o0, m, ls) /\\ no_raise ls /\\ DiskBridge3.leftover_or_ok m.
+Proof. exact DiskRun.periodic_run. Qed.
+Print Assumptions C17_periodic_complete.
 Theorem C17_twolevel_complete : forall (N P bs : Z) (bst : storage) (tj : traj), 1 <= N -> 1 <= P -> 0 <= bs -> bst = RAM \\/ bst = DISK -> forall k : nat,
   exists o0 m ls, run_case (PTwo P bs bst tj) (ptl N P bs bst) (repeat Next (Z.to_nat (TLBridge.Q N P)) ++ [Fin N] ++ repeat Next (S k)) = Ok (o0, m, ls) /\\ mon_ok m /\\ no_raise ls.
 Proof. exact twolevel_run. Qed.
 Print Assumptions C17_twolevel_complete.
 
 '''
-mk('C17', ['NAdv','AllocProofs','InvalidProofs','RevConv','RevBridge4','RevolveRun','RevBridge6'], [C17_complete,
+mk('C17', ['NAdv','AllocProofs','InvalidProofs','RevConv','RevBridge4','RevolveRun','RevBridge6','DiskRun','DiskBridge3','DiskGen','PeriodGen'], [C17_complete,
    lifted('C17_multistage_construct_total','AllocTotal','construct_total','the Multistage constructor returns for every tuple of the domain'),
    lifted('C17_allocate_total','AllocTotal','allocate_total','allocate_snapshots (dry run of the schedule with placeholder labels, weighing, top-k) never raises on the domain'),
    lifted('C17_n_advance_total','NAdv','n_advance_spec','n_advance never raises on its domain; range; limiting cases; optimal region'),
@@ -270,10 +312,12 @@ mk('C17', ['NAdv','AllocProofs','InvalidProofs','RevConv','RevBridge4','RevolveR
    lifted('C17_mixed_rejects','InvalidProofs','mixed_rejects','Mixed: max_n < 1, no unit for max_n > 1, or a storage other than RAM / DISK: ValueError at construction (both planner paths)'),
    lifted('C17_twolevel_rejects','InvalidProofs','twolevel_rejects','TwoLevel: period < 1 or a binomial storage other than RAM / DISK: ValueError at construction'),
    lifted('C17_revolve_top_total','RevBridge6','revolve_top_total','the Revolve op-list generator (table + recursion) never fails on the domain'),
-   lifted('C17_revolve_family_rejects_partial','InvalidProofs','revolve_rejects','PARTIAL (Revolve family): max_n < 1 or no RAM unit for max_n > 1 is an exception at construction; that valid tuples always yield a complete stream is proved for Revolve (C17_revolve_complete) but not for DiskRevolve, PeriodicDiskRevolve, HRevolve (correspondence + oracle)')])
-C18_runs = safety('C18','C18','')
-mk('C18', ['Repr','RevConv','RevBridge4','RevolveRun'], [C18_runs, lifted('C18_z_roundtrip','Repr','z_roundtrip','decimal printing of integers parses back')])
-mk('C19', ['PeriodProofs'], [lifted('C19_periodic_sweep_writes','PeriodProofs','periodic_sweep_writes','disk writes of the forward sweep are exactly at 0, m, 2m, ... while more than m steps remain'),
+   lifted('C17_disk_revolve_top_total','DiskGen','disk_revolve_top_total','the DiskRevolve op-list generator (both tables + recursion) never fails on the domain'),
+   lifted('C17_periodic_top_total','PeriodGen','periodic_top_total','the PeriodicDiskRevolve op-list generator never fails on the domain, and its period is mxrr'),
+   lifted('C17_revolve_family_rejects_partial','InvalidProofs','revolve_rejects','PARTIAL (Revolve family): max_n < 1 or no RAM unit for max_n > 1 is an exception at construction; that valid tuples always yield a complete stream is proved for Revolve, DiskRevolve, PeriodicDiskRevolve (C17_*_complete) but not for HRevolve (correspondence + oracle)')])
+C18_runs = safety('C18','C18','') + disk_safety('C18','C18')
+mk('C18', ['Repr','RevConv','RevBridge4','RevolveRun','DiskRun','OnlineWF'], [C18_runs, lifted('C18_basic_wf_every_history','OnlineWF','basic_wf_every_history','NoneCheckpointSchedule, SingleMemoryStorageSchedule, SingleDiskStorageSchedule under EVERY history (requests, valid or rejected finalize calls, Run loops, in any order and number; any executor parameters): every yielded action is well formed (wf_action: the E_malformed requirements of the executor)'), lifted('C18_wf_not_malformed','OnlineWF','wf_not_malformed','wf_action is exactly what the executor needs not to report E_malformed'), lifted('C18_z_roundtrip','Repr','z_roundtrip','decimal printing of integers parses back')])
+mk('C19', ['PeriodProofs','PeriodShape'], [lifted('C19_periodic_shape','PeriodShape','periodic_shape','the whole operation sequence, every l = max_n - 1 >= 0 and cm >= 1: sweep ++ revolve(last segment) ++ (Read_disk + revolve(one period)) per disk checkpoint, last first; k disk checkpoints, written exactly while more than mx steps remain; the pieces come from the memory-only generator `revolve` on the opt_0 table (the generator of class Revolve: C07) and contain no disk operation; hence disk writes only in the sweep at 0, mx, ..., (k-1) mx, none afterwards, and each disk checkpoint is read exactly once'), lifted('C19_periodic_sweep_writes','PeriodProofs','periodic_sweep_writes','disk writes of the forward sweep are exactly at 0, m, 2m, ... while more than m steps remain'),
    lifted('C19_period_closed_form','PeriodProofs','periodic_period_closed_form','the period is beta(cm, tm) with tm the least t such that beta(cm+1, t) uf > wd + rd; independent of N')])
 
 for pid, body in files.items():
